@@ -41,6 +41,8 @@ RULE = ("pairs of particle lists (1..200 particles each, 1..4 tomograms with arb
         "30 % of the cases, pixel_size in 30 % of those with pixel size 1, nn_number in 30 % of those with k = 1, so that the library's defaults are exercised. "
         "Cross-call state (35 %, mode 'inplace'): the SAME Motl object(s) (both / only the second / only the first list) are analysed, moved rigidly in place, and analysed again; "
         "otherwise fresh objects are built for the moved lists. Both calls are judged alike (verified checker, statement, model) and every particle list is compared before/after each call. "
+        "Column order (round 8): in 30 % of the cases the 20 columns of each caller's DataFrame are stored in another order than Motl.motl_columns (reversed, x/z swapped, identifiers-first, random permutation; "
+        "Motl.__init__ accepts any order); observations and in-place edits address columns by name. "
         "Receiver classes (round 7): each list is an object of Motl (65 %) or, independently, of EmMotl / RelionMotl / StopgapMotl / DynamoMotl / ModMotl built from the same table, so that an override of "
         "get_motl_subset / get_coordinates / get_angles / get_feature in a format subclass is executed when it is reachable (the subsets nnana works on are base Motl objects: an override of "
         "get_coordinates alone is unreachable from get_nn_stats and is caught by the framework's overriding-subclass obligation only). "
@@ -874,6 +876,8 @@ def _one(rng, tier):
     labels = {"a": _labels(rng, len(a)), "nn": _labels(rng, len(nn))}
     forms = [f for f, pr in (("k_numpy", 0.15), ("px_numpy", 0.1)) if rng.random() < pr]
     # round 7: the particle lists are objects of Motl (65 %) or of one of its format subclasses, independently for the two lists
+    # round 8: stored column order of the two DataFrames (70 % canonical for both)
+    colorder = {"a": None, "nn": None} if rng.random() < 0.7 else {"a": _colorder(rng), "nn": _colorder(rng)}
     receiver = {"a": "Motl", "nn": "Motl"} if rng.random() < 0.65 else {"a": rng.choice(RECEIVERS), "nn": rng.choice(RECEIVERS)}
     if float(px) == int(px) and rng.random() < 0.4:
         forms.append("px_int")
@@ -902,7 +906,7 @@ def _one(rng, tier):
     ta, tn = {int(r[0]) for r in a}, {int(r[0]) for r in nn}
     overlap = "disjoint" if not (ta & tn) else ("same" if ta == tn else "partial")
     return dict(a=a, nn=nn, k=k, px=px, Q=Q, t=t, layout=layout, relation=relation, overlap=overlap, family=family, submode=submode,
-                omit=omit, mode=mode, reuse=reuse, move_tomos=move_tomos, dtype=dtype, labels=labels, forms=forms, receiver=receiver)
+                omit=omit, mode=mode, reuse=reuse, move_tomos=move_tomos, dtype=dtype, labels=labels, forms=forms, receiver=receiver, colorder=colorder)
 
 
 def _labels(rng, n):
@@ -979,6 +983,11 @@ def shrink(case):
         cands.append(dict(case, labels={"a": None, "nn": None}))
     if case.get("forms"):
         cands.append(dict(case, forms=[]))
+    if any((case.get("colorder") or {}).values()):
+        cands.append(dict(case, colorder={"a": None, "nn": None}))
+        for nm in ("a", "nn"):
+            if (case["colorder"] or {}).get(nm) not in (None, list(reversed(COLS))):
+                cands.append(dict(case, colorder=dict(case["colorder"], **{nm: list(reversed(COLS))})))
     if any(v != "Motl" for v in (case.get("receiver") or {}).values()):
         cands.append(dict(case, receiver={"a": "Motl", "nn": "Motl"}))
     if case.get("mode", "fresh") != "fresh":
@@ -1019,7 +1028,26 @@ INT_ID_COLUMNS = ["subtomo_id", "tomo_id", "object_id", "class", "geom1", "geom2
 RECEIVERS = ["Motl", "EmMotl", "RelionMotl", "StopgapMotl", "DynamoMotl", "ModMotl"]
 
 
-def _motl(rows, dtype="float64", labels=None, receiver="Motl"):
+def _colorder(rng):
+    """stored order of the 20 motl columns in the caller's DataFrame (round 8): None = Motl.motl_columns; Motl.__init__ accepts any
+    order (it compares the sorted names) and every documented access is by column NAME"""
+    u = rng.random()
+    if u < 0.25:
+        return None
+    if u < 0.5:
+        return list(reversed(COLS))
+    if u < 0.7:   # x, y, z (and the shifts) stored as z, y, x
+        sw = {"x": "z", "z": "x", "shift_x": "shift_z", "shift_z": "shift_x"}
+        return [sw.get(c, c) for c in COLS]
+    if u < 0.8:   # written down by hand: identifiers, position, shifts, angles, the rest
+        first = ["subtomo_id", "tomo_id", "x", "y", "z", "shift_x", "shift_y", "shift_z", "phi", "theta", "psi"]
+        return first + [c for c in COLS if c not in first]
+    l = list(COLS)
+    rng.shuffle(l)
+    return l
+
+
+def _motl(rows, dtype="float64", labels=None, receiver="Motl", colorder=None):
     """the caller's particle list: a Motl — or one of its format subclasses (round 7: the receiver class decides which
     get_motl_subset / get_coordinates / ... the analysis calls) — around a DataFrame with the given column types and row labels (H3)"""
     import pandas as pd
@@ -1041,12 +1069,16 @@ def _motl(rows, dtype="float64", labels=None, receiver="Motl"):
         if len(labels) != len(rows):
             raise HarnessError("case carries row labels for another number of rows")
         df.index = list(labels)
+    if colorder is not None:
+        if sorted(colorder) != sorted(COLS):
+            raise HarnessError("case carries a column order that is not a permutation of the 20 motl columns")
+        df = df[list(colorder)]                # same table, same names, other stored order; everything below addresses columns by name
     if receiver in (None, "Motl"):
         return cryomotl.Motl(motl_df=df)
     if receiver not in RECEIVERS:
         raise HarnessError(f"unknown receiver class {receiver}")
     m = getattr(cryomotl, receiver)(df)       # the subclass constructors take a DataFrame in motl format (they copy and re-label it)
-    if dtype != "float64" or labels is not None:
+    if dtype != "float64" or labels is not None or colorder is not None:
         m.df = df                             # ... and a user who wants her own table keeps it by plain attribute assignment
     return m
 
@@ -1145,8 +1177,9 @@ def run_impl(case):
     dt = case.get("dtype", "float64")
     la, ln = (case.get("labels") or {}).get("a"), (case.get("labels") or {}).get("nn")
     ra, rn = (case.get("receiver") or {}).get("a", "Motl"), (case.get("receiver") or {}).get("nn", "Motl")
-    ma = _motl(a, dt, la, ra)
-    mn = ma if same_obj else _motl(nn, dt, ln, rn)
+    ca, cn_ = (case.get("colorder") or {}).get("a"), (case.get("colorder") or {}).get("nn")
+    ma = _motl(a, dt, la, ra, ca)
+    mn = ma if same_obj else _motl(nn, dt, ln, rn, cn_)
     out["orig"] = _call(ma, mn, case)
     if case.get("mode", "fresh") == "inplace":
         reuse = case.get("reuse") or "both"
@@ -1158,16 +1191,16 @@ def run_impl(case):
                 _rewrite_in_place(ma, a2)
                 mb = ma
             else:
-                mb = _motl(a2, dt, la, ra)
+                mb = _motl(a2, dt, la, ra, ca)
             if reuse in ("both", "nn"):
                 _rewrite_in_place(mn, nn2)
                 mc = mn
             else:
-                mc = _motl(nn2, dt, ln, rn)
+                mc = _motl(nn2, dt, ln, rn, cn_)
         out["moved"] = _call(mb, mc, case)
     else:
-        mb = _motl(a2, dt, la, ra)
-        mc = mb if same_obj else _motl(nn2, dt, ln, rn)
+        mb = _motl(a2, dt, la, ra, ca)
+        mc = mb if same_obj else _motl(nn2, dt, ln, rn, cn_)
         out["moved"] = _call(mb, mc, case)
     return out
 
@@ -1618,6 +1651,7 @@ def stats(case, obs, resps):
          "row_labels": ["default" if l is None else ("duplicated" if len(set(l)) < len(l) else ("ascending-gaps" if l == sorted(l) else "not-ascending"))
                         for l in ((case.get("labels") or {}).get("a"), (case.get("labels") or {}).get("nn"))],
          "argument_forms": case.get("forms") or ["plain"],
+         "column_order": ["canonical" if o is None else ("reversed" if o == list(reversed(COLS)) else "other") for o in ((case.get("colorder") or {}).get("a"), (case.get("colorder") or {}).get("nn"))],
          "receiver_classes": [(case.get("receiver") or {}).get("a", "Motl"), (case.get("receiver") or {}).get("nn", "Motl")],
          "pixel_size_kind": "dyadic" if float(case["px"] * 1024).is_integer() else "decimal",
          "subtomo_ids": "repeat-across-tomograms" if len(set(subs_a)) < len(subs_a) else "unique-in-list",
